@@ -33,7 +33,7 @@ fn n_grid_c() -> u64 {
 
 // mixed batches: dead IDs in front of live ones, duplicates, same-deadline modification
 fn n_grid_d() -> u64 {
-    16
+    18
 }
 
 fn grid(_p: &EpParams) -> u64 {
@@ -506,6 +506,18 @@ async fn grid_d(p: &EpParams, case: u64) -> EpReport {
             let got = su.seq.pull(&s, 10, true).await;
             if got.len() != 2 {
                 rep.viol("C05", "C05:nack-not-available", format!("ModifyAckDeadline([a2, a1, a2], 0) made {} of 2 messages available", got.len()));
+            }
+        }
+        16 | 17 => {
+            // a request with as many entries as there are leases, none of which is a lease: a late
+            // nack (16) / extension (17) for a delivery that was acknowledged long ago must leave the
+            // one delivery that is outstanding alone
+            label = if case == 16 { "unary nack [acked id] while one other lease is outstanding" } else { "unary +30 [acked id] while one other lease is outstanding" };
+            su.seq.ack(&s, &[a1.clone()]).await;
+            su.seq.modify(&s, &[a1.clone()], if case == 16 { 0 } else { 30 }).await;
+            let got = su.seq.pull(&s, 10, true).await;
+            if !got.is_empty() {
+                rep.viol("C05", "C05:dead-id-modified-a-live-lease", format!("ModifyAckDeadline on an acknowledged ID made {} message(s) available", got.len()));
             }
         }
         14 | 15 => {
